@@ -5,7 +5,7 @@ import errno
 import os
 import os.path
 from collections.abc import Iterable, AsyncIterable
-from contextlib import suppress
+from contextlib import suppress, AsyncExitStack
 from datetime import datetime
 from mailbox import Maildir as _Maildir, MaildirMessage
 from typing import Any, Final, Literal, Self
@@ -347,8 +347,13 @@ class MailboxData(MailboxDataInterface[Message]):
             except KeyError:
                 return None
         dest_subdir = 'new' if recent else 'cur'
-        async with (destination.messages_lock.write_lock(),
-                    self.messages_lock.write_lock()):
+        async with AsyncExitStack() as stack:
+            await stack.enter_async_context(
+                destination.messages_lock.write_lock())
+            if destination is not self:
+                # the lock is not re-entrant
+                await stack.enter_async_context(
+                    self.messages_lock.write_lock())
             try:
                 new_filename = maildir.move_message(
                     rec.key, dest_maildir, dest_subdir)
